@@ -1,7 +1,7 @@
 (* Shape of a complete run of the driver model: a successful run is either the early return (target already reached at the
    start) or a prefix of initial steps followed by the loop, the final classification and the result.  Later proofs use this
    decomposition instead of walking through [run_checked] again. *)
-From Coq Require Import List ZArith Bool String Lia Floats.PrimFloat.
+From Coq Require Import List ZArith Bool String Lia Floats.PrimFloat FunctionalExtensionality.
 From LBFGSB Require Import Base.Res Base.Hoare Model.SF Model.FloatVec Model.Driver Generated.StopTests.
 Import ListNotations.
 Open Scope Z_scope.
@@ -117,6 +117,34 @@ Section Shape.
       apply bind_ok_inv in H as (s' & tr7 & trG & H7 & H & ->).
       unfold ret in H. inversion H; subst. rewrite app_nil_r.
       eapply shape_loop; eauto. rewrite ERX. exact H6.
+  Qed.
+
+  (* the run written with the named steps *)
+  Definition run_steps (x : vec) : M ev result :=
+    '(f0, t1) <- step_f0 x ;;
+    ft <- step_ft ;;
+    gt <- step_gt ;;
+    if is_f0_target_reached (div f0 (scale t1)) ft then ret (early_result x f0 t1)
+    else
+      '(g, t2) <- step_g x t1 ;;
+      t3 <- step_sc x g t2 ;;
+      '(f1, g1, G1) <- step_upd x (mul f0 (scale t3)) (vscale g (scale t3)) (fst restored) (snd restored) ;;
+      s <- loop U K c (fuel0 c nit_start) ft gt (first_state x f1 g1 G1 t3) ;;
+      ret (snapshot (classify c gt s) (s_nit (classify c gt s))).
+
+  Lemma run_checked_steps x : run_checked U K c x = run_steps x.
+  Proof.
+    unfold run_checked, run_steps, step_f0, t_init, step_ft, step_gt, step_g, step_sc, step_upd, first_state, early_result, nit_start, restored.
+    destruct (match checkpoint c with None => ([], []) | Some ck => restore c ck end) as [X G] eqn:ER. cbn [fst snd].
+    f_equal. apply FunctionalExtensionality.functional_extensionality. intros [f0 t1].
+    f_equal. apply FunctionalExtensionality.functional_extensionality. intros ft.
+    f_equal. apply FunctionalExtensionality.functional_extensionality. intros gt.
+    destruct (is_f0_target_reached _ _); [destruct (checkpoint c); reflexivity|].
+    f_equal. apply FunctionalExtensionality.functional_extensionality. intros [g t2].
+    f_equal. apply FunctionalExtensionality.functional_extensionality. intros t3.
+    f_equal. apply FunctionalExtensionality.functional_extensionality. intros [[f1 g1] G1].
+    destruct (match u_upd U with Some _ => _ | None => _ end) as [X0 G0].
+    destruct (match X0 with [] => _ | _ => _ end) as [[X1 G2] m1]. reflexivity.
   Qed.
 
   Lemma run_shape_of x : forall r tr, run U K c = (Ok r, tr) -> x = vclip (x0 c) (lb c) (ub c) -> run_shape x r tr.
